@@ -29,6 +29,9 @@ RULE = (
     "the empty-history result; conformance = format_code results of the core sources recomputed in real fresh "
     "processes. non-trivial = the operation changed the cache state and returned a changed text"
 )
+RULE += (" successor layer: for every source and every firing rule (and format_code), the same call is first made on each SUCCESSOR text of the source (result of one "
+         "rewriting pass of a firing rule, the rule's fixpoint, format_code's result; up to 8) and then on the source; result must equal the fresh result. "
+         "'fresh' = caches cleared and every mutable container reachable from pyrefact module globals, defaults, class bodies, function attributes and closure cells restored.")
 ASSUMPTIONS = [
     "states whose every cache entry is faithful are treated as equivalent to the empty state for further expansion "
     "(they can differ from it only by object identity); the depth-2/3 differential layers re-check exactly that",
